@@ -4,7 +4,7 @@
    the oracle (re-parse and compare on regular probes; reference specifier syntax), not by a theorem. *)
 From Coq Require Import List Bool NArith String.
 From PC Require Import Base.Cmp Base.Result Model.Pep440 Spec.Pep440Spec Spec.Specifier Model.VConstraint
-     Proofs.VersionFacts Proofs.RangeSpec Proofs.SpecifierAgree Proofs.Bumps.
+     Proofs.VersionFacts Proofs.RangeSpec Proofs.SpecifierAgree Proofs.Bumps Proofs.Compat.
 Import ListNotations.
 Open Scope string_scope.
 
@@ -47,3 +47,19 @@ Example C15_desugar :
     vc_str (VOne (caret_range v)) = Ok ">=0.2.3rc1,<0.3.0" /\
     vc_str (VOne (tilde_range v)) = Ok ">=0.2.3rc1,<0.3.0".
 Proof. eexists. repeat split; vm_compute; reflexivity. Qed.
+
+(* ~=V (the PEP 440 compatible-release clause as the parser builds it, for 1 to any number of release components): the upper bound
+   is a final release strictly above V; the range admits V and rejects the upper bound and every version of its release class
+   that is not above it (its pre- and dev-releases) *)
+Theorem C15_compatible_release : forall v, wf v = true ->
+  is_final (compat_high v) = true /\ vltb v (compat_high v) = true /\
+  r_allows (compat_range v) v = true /\
+  forall x, wf x = true -> same_class x (compat_high v) = true -> vltb (compat_high v) x = false -> r_allows (compat_range v) x = false.
+Proof. exact compat_spec. Qed.
+Print Assumptions C15_compatible_release.
+(* [compat_range] is what parse_single builds *)
+Example C15_compat_is_parsed :
+  exists v w u, parse "2.1.0rc1" = Some v /\ parse_single false "~=2.1.0rc1" = Ok (VOne (compat_range v)) /\ vc_str (VOne (compat_range v)) = Ok ">=2.1.0rc1,<2.2.0" /\
+    parse "1.4.5.2" = Some w /\ parse_single false "~=1.4.5.2" = Ok (VOne (compat_range w)) /\
+    parse "1!3.7" = Some u /\ parse_single false "~= 1!3.7" = Ok (VOne (compat_range u)).
+Proof. do 3 eexists. repeat split; vm_compute; reflexivity. Qed.
